@@ -23,7 +23,7 @@ from symx.core import SymInt, SymBool
 import py4hw
 from py4hw.logic.bitwise import Constant, Not, ShiftLeftConstant, Repeat
 from py4hw.logic.storage import Reg
-from py4hw.logic.simulation import Sequence, Waveform
+from py4hw.logic.simulation import Sequence, Waveform, RandomValue
 
 PROP = 'C06'
 
@@ -51,6 +51,14 @@ class Listener:
 
 
 def range_task(p, cfg, rec):
+    try:
+        return _range_task(p, cfg, rec)
+    finally:
+        if cfg.get('cleanup'):
+            cfg['cleanup']()
+
+
+def _range_task(p, cfg, rec):
     kind = cfg['kind']
     with quiet():
         s = py4hw.HWSystem()
@@ -136,6 +144,14 @@ def range_task(p, cfg, rec):
 
 
 def concrete_replay(cfg, values, label):
+    try:
+        return _concrete_replay(cfg, values, label)
+    finally:
+        if cfg.get('cleanup'):
+            cfg['cleanup']()
+
+
+def _concrete_replay(cfg, values, label):
     """re-run the unwrapped real code with the model's values and look for an out-of-range wire"""
     from .seq import load_state
     with quiet():
@@ -227,6 +243,41 @@ def extra_cfgs(tier):
             return vs
         return {'kind': 'seq', 'build': build, 'symbolize': symbolize}
 
+    def rnd_cfg(w):
+        """RandomValue: the random source is the environment -- numpy.random.normal is stubbed to return an ARBITRARY
+        integer-valued draw per call (any sign, wider than the wire)"""
+        import numpy as np
+        import py4hw.logic.simulation as simmod
+        from symx import shims
+        real = np.random.normal
+
+        def build(s):
+            r = s.wire('r', w)
+            RandomValue(s, 'rnd', r, 0, 1.0)
+            return {'ins': {}, 'regs': {}, 'mems': {}}
+
+        def symbolize(s, d, values=None):
+            count = [0]
+            vs = {}
+
+            def draw(mean=0.0, std=1.0, *a, **k):
+                k_ = count[0]
+                count[0] += 1
+                if values is not None:
+                    return float(values.get('draw%d' % k_, 0) - (1 << (w + 2)))
+                x, v = core.fresh('draw%d' % k_, w + 4)
+                vs['draw%d' % k_] = v
+                return x - (1 << (w + 2))
+            np.random.normal = draw
+            if values is None:
+                shims.install(simmod, ('int',))
+            return vs
+
+        def cleanup():
+            np.random.normal = real
+            shims.uninstall(simmod, ('int',))
+        return {'kind': 'seq', 'build': build, 'symbolize': symbolize, 'cleanup': cleanup}
+
     def regrv_cfg(w):
         def build(s):
             d, q, r = s.wire('d', w + 2), s.wire('q', w), s.wire('r', 1)
@@ -246,6 +297,7 @@ def extra_cfgs(tier):
     for w in ([1, 3, 8] if quick else [1, 2, 3, 4, 8, 16, 32]):
         yield 'Constant(symbolic any-sign value)+Not w%d' % w, const_cfg(w)
         yield 'Reg(symbolic any-sign reset_value, wider d) w%d' % w, regrv_cfg(w)
+        yield 'RandomValue(arbitrary draws of any sign and size) w%d' % w, rnd_cfg(w)
         for n in (1, 3):
             for once in (False, True):
                 yield 'Sequence(symbolic any-sign values) w%d n%d once%d' % (w, n, once), seq_cfg(w, n, once)
@@ -326,7 +378,8 @@ def main(argv=None):
         PROP, 'model_checking', tasks, args, design_ref='DESIGN.md section 3 (C06)',
         technique='symbolic execution of the real simulator; per observation point one QF_BV query "some wire value is outside [0,2**width)" over exact unbounded integer terms',
         assumptions=['register/memory pre-state in range (inductive hypothesis); inputs poked through Wire.put as the tests do',
-                     'divisors non-zero where the block grid assumes it (otherwise random.randint is reached)'],
+                     'divisors non-zero where the block grid assumes it (otherwise random.randint is reached)',
+                     'RandomValue: numpy.random.normal is stubbed by an arbitrary integer-valued draw per call (any sign, 4 bits wider than the wire) and the builtin int of py4hw.logic.simulation by a shim that keeps symbolic integers symbolic'],
         bounds={'designs': 'the C07/C08/C09 configuration grids (quick: a 1/3 sample of the pure combinational ones plus all mask-relying primitives) and symbolic any-sign constants, stimulus and reset values',
                 'cycles': 'power-up + 2 clock calls from a symbolic state (1-step induction)', 'outside': 'BidirWire, FieldInspector'},
         trusted_base=['z3', 'symx operator semantics'],
